@@ -122,6 +122,9 @@ def menu(sid):
         {"op": "gdf", "pe": "exclude", "proj": "rob100", "engine": "spatialpandas", "cache": False, "override": False},
         {"op": "gdf", "pe": "ignore", "proj": "rob100", "engine": "geopandas", "cache": True, "override": False},
         {"op": "gdf", "pe": "ignore", "proj": None, "engine": "spatialpandas", "cache": True, "override": True, "ret_idx": True},
+        {"op": "gdf", "pe": "exclude", "proj": None, "engine": "spatialpandas", "cache": True, "override": False, "ret_idx": True},
+        {"op": "gdf", "pe": "ignore", "proj": None, "engine": "geopandas", "cache": True, "override": False, "ret_idx": True},
+        {"op": "gdf", "pe": "exclude", "proj": "robinson", "engine": "spatialpandas", "cache": True, "override": False, "ret_idx": True},
     ]
     m["gdf"] = g
     p = []
